@@ -288,3 +288,24 @@ pub fn cond_inf(a: &[f64], n: usize) -> Option<f64> {
         None
     }
 }
+
+/// deterministic pseudo-random dense matrix with entries that are multiples of 1/8 in [-4, 4]
+pub fn lcg_dense(n: usize, m: usize, seed: u64) -> Vec<f64> {
+    let mut s = seed.wrapping_mul(0x9E3779B97F4A7C15).wrapping_add(0x1234_5678_9abc_def1);
+    (0..n * m)
+        .map(|_| {
+            s = s.wrapping_mul(6364136223846793005).wrapping_add(1442695040888963407);
+            (((s >> 33) % 65) as f64 - 32.0) / 8.0
+        })
+        .collect()
+}
+/// AᵀA + I for a dense dyadic A: exactly symmetric, positive definite
+pub fn gram_spd(a: &[f64], n: usize) -> Vec<f64> {
+    let mut g = vec![0.0; n * n];
+    for i in 0..n {
+        for j in 0..n {
+            g[i * n + j] = (0..n).map(|k| a[k * n + i] * a[k * n + j]).sum::<f64>() + if i == j { 1.0 } else { 0.0 };
+        }
+    }
+    g
+}
